@@ -512,6 +512,8 @@ def oracle_equations(ctx: Ctx, b: Built, case, tag: dict, split=None, deviation=
         if not ok:
             break
     ctx.evaluations += 1
+    if ok:
+        ctx.extra["max_oracle_residual_over_scale"] = max(ctx.extra.get("max_oracle_residual_over_scale", 0.0), worst / scale)
     return ok
 
 
